@@ -34,8 +34,11 @@ func RunC11(st *simcore.Stream, tier, leg string, logOn bool, res *simcore.Resul
 	perAsker := 1 + st.Intn(3)
 	nServers := 1 + st.Intn(3)
 	closeOne := st.Bool(1, 3)
+	// in some runs with a closing node nobody serves on it: its asks are parked in the stack when Close comes
+	victimUnserved := closeOne && st.Bool(1, 2)
+	victim := st.Intn(p.N)
 	res.Cfg = map[string]any{"stack": spec, "nodes": p.N, "innerMTU": p.InnerMTU, "fragMTU": p.FragMTU, "workers": p.Workers, "askers": nAskers, "perAsker": perAsker,
-		"servers": nServers, "closeOne": closeOne, "faults": fmt.Sprintf("%+v", w.Net.Faults)}
+		"servers": nServers, "closeOne": closeOne, "closedNodeUnserved": victimUnserved, "faults": fmt.Sprintf("%+v", w.Net.Faults)}
 
 	w.Sim.Run(func() {
 		w.Eps = w.Build(spec)
@@ -45,8 +48,8 @@ func RunC11(st *simcore.Stream, tier, leg string, logOn bool, res *simcore.Resul
 		mtu := w.Eps[0].MTU()
 		res.Cfg["mtu"] = mtu
 		sctx, scancel := context.WithCancel(context.Background())
-		for _, ep := range w.Eps {
-			for s := 0; s < nServers; s++ {
+		for i, ep := range w.Eps {
+			for s := 0; s < nServers && !(victimUnserved && i == victim); s++ {
 				zsimrt.Go("serve", func() { w.ServeLoop(sctx, ep, 0) })
 			}
 			// tells keep flowing on ask-capable swarms too
@@ -54,7 +57,6 @@ func RunC11(st *simcore.Stream, tier, leg string, logOn bool, res *simcore.Resul
 		}
 		closedNode, closedStep := -1, -1
 		if closeOne {
-			victim := st.Intn(p.N)
 			delay := st.Intn(60)
 			w.opBegin()
 			zsimrt.Go("closer", func() {
